@@ -98,6 +98,11 @@ AdoptWeak(ref) == {<<e.a, e.t>> : e \in {x \in ref : \E y \in ref : y # x /\ y.a
                                              (y.ini = x.ini \/ (x.ini.k = "c" /\ y.ini.k = "c" /\ x.ini.s \cap y.ini.s # {}))}}
 
 (* ---------------- actions ---------------- *)
+\* Each action is  IsEvent /\ Holds(<check of every logged field>) /\ <next state as a function of the event>.
+\* Holds() makes TLC evaluate the check as one Boolean (quantifiers and disjunctions inside an action would
+\* otherwise be enumerated as alternative successor states).
+Holds(b) == b = TRUE
+
 Init == /\ l = 1
         /\ S = [topo |-> [pus |-> {}, nodes |-> {}, ncpus |-> <<>>, nmem |-> <<>>, objs |-> {}, ocpus |-> <<>>],
                 user |-> <<>>, ref |-> {}, weak |-> {}]
@@ -106,88 +111,97 @@ Init == /\ l = 1
 IsEvent(e) == l <= Len(T) /\ T[l].e = e /\ l' = l + 1
 Running(e) == IsEvent(e) /\ ~pend /\ pend' = pend /\ ncs' = ncs
 
+ResetUser(e) == IF e.adopt = 1 THEN UserOfListing(e.al) ELSE <<>>
+ResetCheck(e) ==
+  /\ e.ok = 1 /\ e.adopt \in {0, 1}
+  /\ TopoWF(e.topo)
+  /\ \A i, j \in DOMAIN e.cs : i # j => e.cs[i] # e.cs[j]
+  /\ Len(e.al) >= NPredef
+  /\ ListingOK(e, ResetUser(e))
+  /\ \A i \in DOMAIN ResetUser(e) : LegalFlags(ResetUser(e)[i].flags)
 TReset ==
   /\ IsEvent("Reset")
-  /\ LET e == T[l] IN
-     /\ e.ok = 1 /\ e.adopt \in {0, 1}
-     /\ TopoWF(e.topo)
-     /\ \A i, j \in DOMAIN e.cs : i # j => e.cs[i] # e.cs[j]
-     /\ Len(e.al) >= NPredef
-     /\ LET user == IF e.adopt = 1 THEN UserOfListing(e.al) ELSE <<>> IN
-        /\ ListingOK(e, user)
-        /\ \A i \in DOMAIN user : LegalFlags(user[i].flags)
-        /\ S' = [topo |-> TopoOf(e.topo), user |-> user, ref |-> {}, weak |-> {}]
-     /\ nos' = NosOf(e.topo)
-     /\ ncs' = IF e.adopt = 1 THEN -1 ELSE Len(e.cs)
-     /\ pend' = (e.adopt = 1)
+  /\ Holds(ResetCheck(T[l]))
+  /\ S' = [topo |-> TopoOf(T[l].topo), user |-> ResetUser(T[l]), ref |-> {}, weak |-> {}]
+  /\ nos' = NosOf(T[l].topo)
+  /\ ncs' = IF T[l].adopt = 1 THEN -1 ELSE Len(T[l].cs)
+  /\ pend' = (T[l].adopt = 1)
 
+AdoptState(e) == LET ref == AdoptRef(S.user, e.a) IN [S EXCEPT !.ref = ref, !.weak = AdoptWeak(ref)]
+AdoptCheck(e) ==
+  LET St == AdoptState(e) IN
+  /\ ListingOK(e, S.user)
+  /\ {e.a[k].n : k \in DOMAIN e.a} = {e.al[i][2] : i \in DOMAIN e.al}
+  /\ \A x \in St.ref : HasObj(S.topo, x.t)
+  /\ \A k \in DOMAIN e.a : ObsAttrOK(St, e.a[k])
 TAdopt ==
   /\ IsEvent("Adopt") /\ pend /\ pend' = FALSE /\ ncs' = ncs
-  /\ LET e == T[l]
-         ref == AdoptRef(S.user, e.a)
-         St == [S EXCEPT !.ref = ref, !.weak = AdoptWeak(ref)]
-     IN /\ ListingOK(e, S.user)
-        /\ {e.a[k].n : k \in DOMAIN e.a} = {e.al[i][2] : i \in DOMAIN e.al}
-        /\ \A x \in ref : HasObj(S.topo, x.t)
-        /\ \A k \in DOMAIN e.a : ObsAttrOK(St, e.a[k])
-        /\ S' = St
+  /\ Holds(AdoptCheck(T[l]))
+  /\ S' = AdoptState(T[l])
   /\ UNCHANGED nos
 
+RegisterNext(e) == IF e.ret = 0 THEN RegisterApply(S, e.name, e.flags) ELSE S
+RegisterCheck(e) ==
+  /\ RegisterOK(S, e.name, e.flags, e.ret, e.errno, e.id)
+  /\ e.ret # 0 => e.id = -1
+  /\ ListingOK(e, RegisterNext(e).user)
 TRegister ==
   /\ Running("Register")
-  /\ LET e == T[l] IN
-     /\ RegisterOK(S, e.name, e.flags, e.ret, e.errno, e.id)
-     /\ e.ret # 0 => e.id = -1
-     /\ S' = IF e.ret = 0 THEN RegisterApply(S, e.name, e.flags) ELSE S
-     /\ ListingOK(e, S'.user)
+  /\ Holds(RegisterCheck(T[l]))
+  /\ S' = RegisterNext(T[l])
   /\ UNCHANGED nos
 
+SetNext(e) ==
+  IF e.skip = 1 \/ e.ret # 0 THEN S ELSE SetApply(S, AttrInfo(S.user, e.attr), e.attr, e.t, IniOf(e.ini), e.v)
+SetCheck(e) ==
+  LET q == IniOf(e.ini)   ai == AttrInfo(S.user, e.attr) IN
+  IF e.skip = 1 THEN
+     \* the recorder could not find the target or the initiator object: they are indeed absent
+     ~HasObj(S.topo, e.t) \/ (q.k = "o" /\ ~HasObj(S.topo, q.o))
+  ELSE
+     /\ HasObj(S.topo, e.t) /\ (q.k = "o" => HasObj(S.topo, q.o))
+     /\ e.id = ai.id
+     /\ SetRetOK(S, ai, e.attr, e.t, q, e.flags, e.ret, e.errno)
 TSetValue ==
   /\ Running("SetValue")
-  /\ LET e == T[l]   q == IniOf(e.ini)   ai == AttrInfo(S.user, e.attr) IN
-     IF e.skip = 1 THEN
-        \* the recorder could not find the target or the initiator object: they are indeed absent
-        /\ ~HasObj(S.topo, e.t) \/ (q.k = "o" /\ ~HasObj(S.topo, q.o))
-        /\ S' = S
-     ELSE
-        /\ HasObj(S.topo, e.t) /\ (q.k = "o" => HasObj(S.topo, q.o))
-        /\ e.id = ai.id
-        /\ SetRetOK(S, ai, e.attr, e.t, q, e.flags, e.ret, e.errno)
-        /\ S' = IF e.ret = 0 THEN SetApply(S, ai, e.attr, e.t, q, e.v) ELSE S
+  /\ Holds(SetCheck(T[l]))
+  /\ S' = SetNext(T[l])
   /\ UNCHANGED nos
 
+RestrictCheck(e) ==
+  LET t2 == TopoOf(e.topo) IN
+  /\ TopoWF(e.topo)
+  /\ e.by \in {"c", "n"}
+  /\ IF e.ret = 0 THEN /\ RestrictTopoOK(S.topo, t2)
+                       /\ \A n \in t2.nodes : NosOf(e.topo)[n] = nos[n]
+     ELSE e.ret = -1 /\ t2 = S.topo /\ NosOf(e.topo) = nos      \* a failed restrict leaves the topology alone
 TRestrict ==
   /\ Running("Restrict")
-  /\ LET e == T[l]   t2 == TopoOf(e.topo) IN
-     /\ TopoWF(e.topo)
-     /\ e.by \in {"c", "n"}
-     /\ IF e.ret = 0 THEN /\ RestrictTopoOK(S.topo, t2)
-                          /\ \A n \in t2.nodes : NosOf(e.topo)[n] = nos[n]
-                          /\ S' = RestrictApply(S, t2)
-        ELSE /\ e.ret = -1 /\ t2 = S.topo /\ NosOf(e.topo) = nos      \* a failed restrict leaves the topology alone
-             /\ S' = S
-     /\ nos' = NosOf(e.topo)
+  /\ Holds(RestrictCheck(T[l]))
+  /\ S' = IF T[l].ret = 0 THEN RestrictApply(S, TopoOf(T[l].topo)) ELSE S
+  /\ nos' = NosOf(T[l].topo)
 
 \* hwloc_topology_dup: the copy (Dup: the behaviour continues on it; DupDrop: it is destroyed, the original goes on)
+DupCheck(e) ==
+  /\ e.ret = 0
+  /\ TopoWF(e.topo) /\ TopoOf(e.topo) = S.topo /\ NosOf(e.topo) = nos
+  /\ ListingOK(e, S.user)
 TDup ==
   /\ (Running("Dup") \/ Running("DupDrop"))
-  /\ LET e == T[l] IN
-     /\ e.ret = 0
-     /\ TopoWF(e.topo) /\ TopoOf(e.topo) = S.topo /\ NosOf(e.topo) = nos
-     /\ ListingOK(e, S.user)
+  /\ Holds(DupCheck(T[l]))
   /\ UNCHANGED <<S, nos>>
 
 \* XML export + import: same topology, same attributes (identifiers may be reassigned), same values
+XmlCheck(e) ==
+  /\ e.ret = 0 /\ e.lret = 0 /\ e.flags \in {0, 2}
+  /\ TopoWF(e.topo) /\ TopoOf(e.topo) = S.topo /\ NosOf(e.topo) = nos
+  /\ Len(e.al) = NPredef + Len(S.user)
+  /\ ToSet(UserOfListing(e.al)) = ToSet(S.user)
+  /\ ListingOK(e, UserOfListing(e.al))
 TXml ==
   /\ Running("Xml")
-  /\ LET e == T[l] IN
-     /\ e.ret = 0 /\ e.lret = 0 /\ e.flags \in {0, 2}
-     /\ TopoWF(e.topo) /\ TopoOf(e.topo) = S.topo /\ NosOf(e.topo) = nos
-     /\ Len(e.al) = NPredef + Len(S.user)
-     /\ LET user2 == UserOfListing(e.al) IN
-        /\ ToSet(user2) = ToSet(S.user)
-        /\ ListingOK(e, user2)
-        /\ S' = [S EXCEPT !.user = user2]
+  /\ Holds(XmlCheck(T[l]))
+  /\ S' = [S EXCEPT !.user = UserOfListing(T[l].al)]
   /\ UNCHANGED nos
 
 TRefresh ==
@@ -195,25 +209,27 @@ TRefresh ==
   /\ T[l].ret = 0
   /\ UNCHANGED <<S, nos>>
 
+ObsCheck(e) ==
+  /\ ListingOK(e, S.user)
+  /\ \A k \in DOMAIN e.a : ObsAttrOK(S, e.a[k])
 TObs ==
   /\ Running("Obs")
-  /\ LET e == T[l] IN
-     /\ ListingOK(e, S.user)
-     /\ \A k \in DOMAIN e.a : ObsAttrOK(S, e.a[k])
+  /\ Holds(ObsCheck(T[l]))
   /\ UNCHANGED <<S, nos>>
 
+LocalCheck(e) ==
+  /\ TopoOf(e.topo) = S.topo /\ NosOf(e.topo) = nos
+  /\ \A i \in DOMAIN e.ln :
+       LET g == e.ln[i]   q == IniOf(g[1]) IN
+       /\ q.k = "o" => HasObj(S.topo, q.o)
+       /\ LocalNodesOK(S.topo, q, g[2], g[3], g[4], g[5], g[6], g[7])
+  /\ \A i \in DOMAIN e.dn :
+       LET g == e.dn[i] IN
+       /\ DefaultNodesetOK(S.topo, nos, g[1], g[2], ToSet(g[4]))
+       /\ (Advisory /\ g[1] = 0 /\ g[2] = 0) => DefaultNodesetMaximal(S.topo, nos, ToSet(g[4]))
 TLocal ==
   /\ Running("Local")
-  /\ LET e == T[l] IN
-     /\ TopoOf(e.topo) = S.topo /\ NosOf(e.topo) = nos
-     /\ \A i \in DOMAIN e.ln :
-          LET g == e.ln[i]   q == IniOf(g[1]) IN
-          /\ q.k = "o" => HasObj(S.topo, q.o)
-          /\ LocalNodesOK(S.topo, q, g[2], g[3], g[4], g[5], g[6], g[7])
-     /\ \A i \in DOMAIN e.dn :
-          LET g == e.dn[i] IN
-          /\ DefaultNodesetOK(S.topo, nos, g[1], g[2], ToSet(g[4]))
-          /\ (Advisory /\ g[1] = 0 /\ g[2] = 0) => DefaultNodesetMaximal(S.topo, nos, ToSet(g[4]))
+  /\ Holds(LocalCheck(T[l]))
   /\ UNCHANGED <<S, nos>>
 
 Next == TReset \/ TAdopt \/ TRegister \/ TSetValue \/ TRestrict \/ TDup \/ TXml \/ TRefresh \/ TObs \/ TLocal
